@@ -25,9 +25,19 @@ def main():
             again = [v for v in ck.violations if v['key'] == rp['key']]
             print(f'replay: the recorded violation {"RECURS" if again else "does NOT recur"} on the current tree'
                   + (f' ({str(again[0]["what"])[:200]})' if again else ''))
-    except Exception:
+    except Exception as e:
         tb = traceback.format_exc()
         print(tb)
+        # an exception raised INSIDE the library (innermost frame under XRFM_REPO) on an input the check built is a concrete failure
+        # of the call the check was making; anything else is a harness problem (broken obligation)
+        from harness.common import REPO
+        frames = traceback.extract_tb(e.__traceback__)
+        inner = frames[-1].filename if frames else ''
+        lib = [f for f in frames if os.path.realpath(f.filename).startswith(os.path.realpath(REPO) + os.sep)]
+        if lib and os.path.realpath(inner).startswith(os.path.realpath(REPO) + os.sep) or (lib and 'site-packages/torch' in inner):
+            where = f'{os.path.relpath(lib[-1].filename, REPO)}:{lib[-1].lineno} in {lib[-1].name}'
+            ck.violation(f'the library raised {type(e).__name__}: {str(e)[:160]} at {where} while the check was exercising it (input: see the traceback in the replay)',
+                         dict(traceback=tb[-3000:], where=where), key=json.dumps(dict(site='library-raise', where=lib[-1].name)))
         ck.obligation('harness ran to completion', 'harness', False, tb)
     sys.exit(ck.finish())
 
